@@ -62,9 +62,10 @@ register(Contract(
     note='bc (a dis.Bytecode) is modelled as the list of its instructions',
 ))
 
-# dataclass __post_init__ of SCFG: assumed (it builds the top-level meta RegionBlock, outside value mode)
+# dataclass __post_init__ of SCFG: proved on its own (one "meta" region name is taken, the region record has kind "meta" and
+# that name); at a constructor call it is applied through this contract
 register(Contract(
-    qual=SC + ':SCFG.__post_init__', params={'self': 'SCFG'}, trusted=True, runtime=False,
+    qual=SC + ':SCFG.__post_init__', params={'self': 'SCFG'}, runtime=False, properties=['C18', 'C09'],
     modifies=['self.name_gen.kinds', 'self.region.kind', 'self.region.name'],
     ensures={
         'kinds': 'self.name_gen.kinds == updated(old.self.name_gen.kinds, "meta", get(old.self.name_gen.kinds, "meta", 0) + 1)',
